@@ -444,9 +444,13 @@ pub broadcast proof fn lemma_dispatch_prefix_auto(dl0: Seq<FrameS>, disp: Seq<Fr
         rest.len() == 0 ==> (dl0 + disp) == dl0 + (disp + rest)
 { lemma_dispatch_prefix(dl0, disp, rest, disp + rest, dl0 + disp); }
 
+// what one item of the outbound queue becomes on the write path: a non-empty chunk goes out as the PSH frame(s) that carry it;
+// an EMPTY chunk is the end-of-data marker queued by Stream::send_fin and goes out as FIN of that stream
+pub open spec fn out_frames(sid: u32, d: Seq<u8>) -> Seq<FrameS>
+{ if d.len() == 0 { seq![FrameS { cmd: Command::Fin, stream_id: sid, data: Seq::<u8>::empty() }] } else { psh_frames(sid, d) } }
 // everything a sequence of (stream id, chunk) items becomes on the write path, in order
-pub open spec fn psh_all(items: Seq<(u32, Seq<u8>)>) -> Seq<FrameS> decreases items.len()
-{ if items.len() == 0 { Seq::empty() } else { psh_all(items.drop_last()) + psh_frames(items.last().0, items.last().1) } }
+pub open spec fn out_all(items: Seq<(u32, Seq<u8>)>) -> Seq<FrameS> decreases items.len()
+{ if items.len() == 0 { Seq::empty() } else { out_all(items.drop_last()) + out_frames(items.last().0, items.last().1) } }
 
 // Lock coverage: the state that decides what goes on the wire next (the pending-frame buffer) must stay locked from the moment
 // the pending frames are taken out until they have been written; otherwise another task's frame can be written in between.
